@@ -38,6 +38,7 @@ CONFIGS = [
 INVERTIBLE = {"boxcox", "log", "detrend", "detrend_naive", "deseason", "cdeseason", "scaler", "optional"}
 SAME_INDEX = {"boxcox", "log", "detrend", "detrend_naive", "deseason", "cdeseason", "scaler", "optional", "cos", "imputer", "hampel"}
 HAS_UPDATE = {"detrend", "detrend_naive", "deseason", "cdeseason"}
+FRAME_OK = {"log", "cos", "imputer", "hampel", "scaler"}      # transformers that accept a multivariate series (DataFrame)
 
 
 def build(cfg):
@@ -83,6 +84,7 @@ def cases(tier, seed):
                    "gapped": bool(rng.random() < 0.25), "stride": int(rng.choice([1, 1, 1, 2, 3, 5])), "updates": [[int(rng.integers(0, 4)), int(rng.integers(1, 9)), bool(rng.random() < 0.5)] for _ in range(nup)],
                    "shift": int(rng.choice([1, 7, -30, 10 ** 6])), "dseed": int(rng.integers(0, 2 ** 31)),
                    # earlier life of the instance: fitted under another configuration of the same class, then reconfigured with set_params
+                   "frame": bool(cfg[0] in FRAME_OK and rng.random() < 0.35),
                    "pre": (lambda same: same[int(rng.integers(0, len(same)))] if rng.random() < 0.35 else None)([c for c in CONFIGS if c[0] == cfg[0]])}
 
 
@@ -119,6 +121,11 @@ def run_case(case, ctx):
         m[0] = m[-1] = False
         full = np.where(m, np.nan, full)
     y = _mk(full[:n], 0, case["idx"], off)
+    frame = bool(case.get("frame")) and kind in FRAME_OK
+    # multivariate series: two columns over the same time index (the second an affine image of the first)
+    W = (lambda s_: pd.DataFrame({"a": s_.values, "b": s_.values * 0.5 + 3.0}, index=s_.index)) if frame else (lambda s_: s_)
+    if frame:
+        ctx.tag("input:multivariate-frame")
     tr = build(cfg)
     if case.get("pre"):
         # a used instance must behave like a fresh one once it is reconfigured and fitted again: nothing learned under the earlier
@@ -128,8 +135,8 @@ def run_case(case, ctx):
         sp0 = max(case["pre"][1].get("sp", 4), 2)
         y0 = _mk(40 + 0.3 * np.arange(m0) + 5 * np.sin(2 * np.pi * (np.arange(m0) + 1) / sp0) + rng.normal(0, 1.0, size=m0) if kind != "imputer" else full[:m0], 3, "int", off + 17)
         try:
-            tr.fit(y0.copy())
-            tr.transform(y0.copy())
+            tr.fit(W(y0))
+            tr.transform(W(y0))
         except Exception:  # noqa
             pass
         okp, _ = ctx.call("set_params:exception:" + kind, lambda: tr.set_params(**build(cfg).get_params(deep=False)))
@@ -137,13 +144,13 @@ def run_case(case, ctx):
             return
         ctx.seen("refit-after-reconfiguration", 1)
         ctx.tag("history:reconfigured")
-    ok, _ = ctx.call("fit:exception:" + kind, tr.fit, y.copy())
+    ok, _ = ctx.call("fit:exception:" + kind, tr.fit, W(y.copy()))
     if not ok:
         return
     # ---- fit_transform == fit().transform() -------------------------------------------------------------
     t2 = build(cfg)
-    ok1, a1 = ctx.call("fit_transform:exception:" + kind, t2.fit_transform, y.copy())
-    ok2, a2 = ctx.call("transform:exception:" + kind, tr.transform, y.copy())
+    ok1, a1 = ctx.call("fit_transform:exception:" + kind, t2.fit_transform, W(y.copy()))
+    ok2, a2 = ctx.call("transform:exception:" + kind, tr.transform, W(y.copy()))
     if ok1 and ok2:
         same = list(a1.index) == list(a2.index) and _close(np.asarray(a1, dtype=float), np.asarray(a2, dtype=float), 1e-12)
         ctx.check("fit_transform", same, "fit_transform:differs-from-fit-then-transform:" + kind, "fit_transform(z) != fit(z).transform(z)")
@@ -174,6 +181,8 @@ def run_case(case, ctx):
     if kind in ("hampel", "acf", "pacf", "imputer", "detrend_naive") and (case["gapped"] or len(positions) != b - a):
         z = _mk(full[a:b], a, case["idx"], off)     # these work on positions of a gap-free series
         positions = list(range(a, b))
+    zser = z
+    z = W(z)
     ok, zt = ctx.call("transform:exception:" + kind, tr.transform, z.copy())
     if not ok:
         return
@@ -219,7 +228,7 @@ def run_case(case, ctx):
     k = case["shift"]
     tr2 = build(cfg)
     ys = pd.Series(y.values.copy(), index=(pd.RangeIndex(off + k, off + k + n) if case["idx"] == "range" else pd.Index(np.arange(off + k, off + k + n))))
-    ok, _ = ctx.call("fit:exception:" + kind, tr2.fit, ys)
+    ok, _ = ctx.call("fit:exception:" + kind, tr2.fit, W(ys))
     if ok:
         pos2 = n
         good = True
@@ -230,7 +239,8 @@ def run_case(case, ctx):
             okk, _ = ctx.call("update:exception:" + kind, tr2.update, batch, update_params=up)
             good = good and okk
             pos2 += size
-        zs = pd.Series(z.values.copy(), index=z.index + k) if not isinstance(z.index, pd.RangeIndex) else pd.Series(z.values.copy(), index=pd.RangeIndex(z.index.start + k, z.index.stop + k, z.index.step))
+        zs = pd.Series(zser.values.copy(), index=z.index + k) if not isinstance(z.index, pd.RangeIndex) else pd.Series(zser.values.copy(), index=pd.RangeIndex(z.index.start + k, z.index.stop + k, z.index.step))
+        zs = W(zs)
         if good:
             ok, zts = ctx.call("transform:exception:" + kind, tr2.transform, zs)
             if ok:
